@@ -634,7 +634,7 @@ def gen_cases(kind, rng, thorough):
         cs.append(dict(transport=kind, path='close_session', close_rpc=cr, pending=1, rpc_timeout=0.3, async_mode=True))
     cs.append(dict(transport=kind, path='with_ok', close_rpc='silent', pending=0, rpc_timeout=0.3, async_mode=True))
     cs.append(dict(transport=kind, path='close_session', close_rpc='ok_open', pending=0, rpc_timeout=1.0, stream=True))
-    for h in ('silent', 'garbage_eof', 'eof'):
+    for h in ('silent', 'garbage_eof', 'eof', 'garbage', 'badbody', 'nocaptext'):
         cs.append(dict(transport=kind, path='failed_hello', hello=h))
     if kind == 'unix': cs.append(dict(transport=kind, path='failed_connect', fault='nolistener'))
     if kind == 'tls':
@@ -715,7 +715,7 @@ def _ssh_iter_evidence(ctx, case, res):
 def run(ctx):
     thorough = ctx.tier == 'thorough'
     kinds = ['unix'] + (['tls', 'ssh'] if thorough else [])
-    files = _files(kinds if thorough else kinds + ['ssh'])
+    files = _files(kinds if thorough else kinds + ['ssh', 'tls'])
     from vlib import paths
     cdir = os.path.join(paths.CORPUS, ID)
     corpus = []
@@ -752,12 +752,17 @@ def run(ctx):
         for case in [dict(transport='ssh', path='failed_connect', fault='badpw'), dict(transport='ssh', path='close', pending=1),
                      dict(transport='ssh', path='close_session', close_rpc='ok_close', pending=0, rpc_timeout=0.3),
                      dict(transport='ssh', path='close_session', close_rpc='ok_open', pending=0, rpc_timeout=1.0, stream=True)
+                     , dict(transport='ssh', path='failed_hello', hello='badbody'),
+                     # ... and TLS by its connect failures (each connect_* function of manager.py has its own clean-up) and one close
+                     dict(transport='tls', path='failed_hello', hello='badbody'), dict(transport='tls', path='failed_hello', hello='nocaptext'),
+                     dict(transport='tls', path='failed_hello', hello='eof'), dict(transport='tls', path='failed_connect', fault='badca'),
+                     dict(transport='tls', path='close', pending=1),
                      ] + SB().quick_cases(ctx.rng):
             if ctx.failures or len(ctx.disagreements) >= 3: break
             res = check_case(ctx, case, files, ctx.model)
-            ctx.count(case); ctx.hist('transport', 'ssh'); ctx.hist('path', case['path'])
+            ctx.count(case); ctx.hist('transport', case['transport']); ctx.hist('path', case['path'])
             ctx.traces += 1 if res['model'] is not None and res['model'].get('accepted') else 0
-            _ssh_iter_evidence(ctx, case, res)
+            if case['transport'] == 'ssh': _ssh_iter_evidence(ctx, case, res)
     ctx.exhaustive = False
 
 def search(ctx, seeds):
